@@ -38,24 +38,49 @@ func c17Capacity(c *Ctx, si *symInterp) {
 		d := linOf(out, prefix+"Capacity").addScaled(linOf(out, prefix+"Filesize"), -1)
 		u := Lin{fcName + ".Capacity": 1, fcName + ".Filesize": -1}
 		gens := []Lin{u}
-		// lemma instances: atoms of the form min(X, (u)/(K)) with K constant
-		for a, coef := range d {
-			if coef >= 0 || !strings.HasPrefix(a, "min(") {
-				continue
+		// lemma instances with K constant and q = (u)/(K), the number of whole K-byte units in the slack u:
+		//   K*q <= u            and            K*min(X, q) <= u
+		quo := "(" + u.String() + ")/("
+		ks := map[int64]bool{}
+		note := func(a string) {
+			i := strings.LastIndex(a, quo)
+			if i < 0 {
+				return
 			}
-			suffix := ", (" + u.String() + ")/("
-			i := strings.LastIndex(a, suffix)
-			if i < 0 || !strings.HasSuffix(a, "))") {
-				continue
+			rest := a[i+len(quo):]
+			j := strings.Index(rest, ")")
+			if j < 0 {
+				return
 			}
 			var k int64
-			if _, err := fmt.Sscanf(a[i+len(suffix):len(a)-2], "%d", &k); err != nil || k <= 0 {
-				continue
+			if _, err := fmt.Sscanf(rest[:j], "%d", &k); err != nil || k <= 0 {
+				return
 			}
-			gens = append(gens, Lin{fcName + ".Capacity": 1, fcName + ".Filesize": -1, a: -k})
+			ks[k] = true
+			q := quo + rest[:j] + ")"
+			gens = append(gens, Lin{fcName + ".Capacity": 1, fcName + ".Filesize": -1, q: -k})
+			if strings.HasPrefix(a, "min(") && strings.HasSuffix(a, ", "+q+")") {
+				gens = append(gens, Lin{fcName + ".Capacity": 1, fcName + ".Filesize": -1, a: -k})
+			}
+		}
+		for a := range d {
+			note(a)
 		}
 		if s != nil {
-			gens = append(gens, factGens(s)...)
+			for _, f := range s.facts {
+				for a := range f.A {
+					note(a)
+				}
+				for a := range f.B {
+					note(a)
+				}
+			}
+			for _, g := range factGens(s) {
+				gens = append(gens, g)
+				for k := range ks { // a fact about unit counts, scaled to bytes
+					gens = append(gens, Lin{}.addScaled(g, k))
+				}
+			}
 		}
 		ok := inCone(d, gens)
 		c.Check(ok, "capacity", inst, where, ifElse(ok, "Filesize <= Capacity is preserved (capacity - filesize = "+shortLin(d)+")", "the produced contract can have Filesize > Capacity, which consensus rejects: capacity - filesize = "+d.String()+" is not witnessed non-negative from the input's Capacity >= Filesize"))
@@ -122,23 +147,68 @@ func c17ValidateBounds(c *Ctx) {
 		req("refresh:collateral-max", refresh, "phi(…"+R+".Refresh.Collateral…)", opGT, "{types.Currency}", "total host collateral is bounded by the host's maximum", any),
 	}
 	runGuardTable(c, "validate-bounds", ge, tab)
-	if fn := c.P.Func("rhp/v4.minProofHeight"); fn != nil {
-		as := ge.ReturnAtoms(fn, 0)
-		re := mustRe(pat("(call max({types.ChainIndex}.Height, {rhp/v4.HostPrices}.TipHeight) + const:…)"))
-		found, extra := false, []string{}
-		for _, a := range as {
-			switch {
-			case re.MatchString(a):
-				found = true
-			case a == "const:18446744073709551615":
-			default:
-				extra = append(extra, a)
+	{
+		si := &symInterp{p: c.P}
+		states, fr, fd, ok := si.RunFunc("rhp/v4.minProofHeight")
+		if !ok {
+			c.Undecided("validate-bounds", "minProofHeight:later-tip", "", "anchor does not resolve")
+		} else {
+			where := c.P.Pos(fd.Pos())
+			var tipName, hpName string
+			for _, n := range paramNames(fd) {
+				switch typeName(paramObj(fd, fr.info, n).Type()) {
+				case "types.ChainIndex":
+					tipName = n
+				case "rhp/v4.HostPrices":
+					hpName = n
+				}
 			}
+			A, B := tipName+".Height", hpName+".TipHeight"
+			var bad []string
+			nret := 0
+			for _, s := range states {
+				if s.panics || len(s.ret) != 1 || s.ret[0].L == nil {
+					continue
+				}
+				if len(s.unsup) > 0 {
+					bad = append(bad, "outside the symbolic domain: "+strings.Join(s.unsup, "; "))
+					continue
+				}
+				r := s.ret[0].L.clone()
+				delete(r, "")
+				if len(r) == 1 {
+					for a := range r {
+						if strings.HasPrefix(a, "const:") { // saturated result
+							r = Lin{}
+						}
+					}
+				}
+				if len(r) == 0 {
+					continue // the saturating constant
+				}
+				nret++
+				okPath := false
+				if len(r) == 1 {
+					for a, k := range r {
+						switch {
+						case k == 1 && (a == "max("+A+", "+B+")" || a == "max("+B+", "+A+")"):
+							okPath = true
+						case k == 1 && (a == A || a == B):
+							other := B
+							if a == B {
+								other = A
+							}
+							okPath = inCone(Lin{a: 1, other: -1}, factGens(s))
+						}
+					}
+				}
+				if !okPath {
+					bad = append(bad, "returns "+s.ret[0].L.String()+" when "+pathTag(s))
+				}
+			}
+			ok2 := len(bad) == 0 && nret >= 1
+			c.Check(ok2, "validate-bounds", "minProofHeight:later-tip", where, ifElse(ok2, "minimum proof height = the later of (chain tip, price-table tip) + MinContractDuration on every path (saturating)", "minProofHeight is not derived from the later of the chain tip and the price table's tip, so already-passed proof heights validate: "+strings.Join(bad, "; ")))
 		}
-		ok := found && len(extra) == 0
-		c.Check(ok, "validate-bounds", "minProofHeight:later-tip", c.P.Pos(fn.Pos()), ifElse(ok, "minimum proof height = max(chain tip, price-table tip) + MinContractDuration (saturating)", "minProofHeight returns "+joinShort(as)+": it must be derived from the later of the chain tip and the price table's tip, otherwise already-passed proof heights validate"))
-	} else {
-		c.Undecided("validate-bounds", "minProofHeight:later-tip", "", "anchor does not resolve")
 	}
 	c.Min("validate-bounds", len(tab)+1)
 }
